@@ -286,6 +286,23 @@ def gen_random(rng, table, n_cases, have_zoneinfo):
     return out
 
 
+def gen_far(rng, n_cases):
+    """Instants centuries ahead (2250 - 2400), a few MICROseconds apart, spelled naive-local and aware (for the zone without
+    transitions only: its offset table holds for all time): a conversion that goes through a float loses the microseconds there."""
+    out = []
+    for _ in range(n_cases):
+        base = int(dt.datetime(rng.randint(2250, 2400), rng.randint(1, 12), rng.randint(1, 28), rng.randint(0, 23), rng.randint(0, 59),
+                               rng.randint(0, 59), tzinfo=dt.timezone.utc).timestamp()) * M + rng.randint(0, M - 1)
+
+        def spec():
+            return {"i": base + rng.randint(-4, 4), "rep": rng.choice([["nl"], ["nl"], ["au"], ["ao", rng.choice(OTHER_OFFSETS)], ["mts", ["nl"]]])}
+        nodes = [{"preds": [], "kind": "s", "t": spec()}, {"preds": [0], "kind": "n", "t": spec()}]
+        if rng.random() < 0.5:
+            nodes.append({"preds": [1], "kind": "n", "t": spec()})
+        out.append({"fresh": None if rng.random() < 0.5 else spec(), "nodes": nodes})
+    return out
+
+
 def gen_foldpairs(rng, tables, n_cases):
     """Two AWARE datetimes carrying the same zoneinfo object (zoneinfo caches one object per key), in the repeated hour of a
     fall-back transition of THAT zone, on opposite sides of the transition: the later instant has the smaller wall-clock
@@ -410,7 +427,8 @@ def run_exploration(ctx, tier, seed, zones):
             work[z] = ([("matrix", c) for c in gen_matrix(rng, t, n_tr)]
                        + [("random", c) for c in gen_random(rng, t, n_rnd, have_zoneinfo)]
                        + [("gap", c) for c in gen_gap(rng, t, n_gap)]
-                       + ([("random", c) for c in gen_foldpairs(rng, tables, max(4, n_rnd // 20))] if have_zoneinfo else []))
+                       + ([("random", c) for c in gen_foldpairs(rng, tables, max(4, n_rnd // 20))] if have_zoneinfo else [])
+                       + ([("random", c) for c in gen_far(random.Random(f"C18-far:{seed}"), max(12, n_rnd // 10))] if z == "UTC" else []))
             rng_c = random.Random(f"C18-clock:{seed}:{z}")
             for kind, c in work[z]:
                 if kind != "gap":
